@@ -176,10 +176,19 @@ fn render(spec: &NumSpec) -> String {
         6 => {
             // leading zeros (long, still a small value)
             let x = (spec.exp_delta % 50).abs();
-            s.push_str(&format!("{}{}{}{}", e, if spec.exp_delta < 0 { "-" } else { plus }, "0".repeat(45), x));
+            // zero padding of 0..300 characters (an exponent field of any length is a numeral)
+            let pad = (spec.exp_delta.unsigned_abs() / 64 % 301) as usize;
+            s.push_str(&format!("{}{}{}{}", e, if spec.exp_delta < 0 { "-" } else { plus }, "0".repeat(pad), x));
         }
         _ => {
-            let x = spec.exp_delta % 20_000;
+            // moderate exponents, and exponents at truncating-cast boundaries +-(2^k + d)
+            let x = if spec.exp_delta & 1 == 0 {
+                spec.exp_delta % 20_000
+            } else {
+                let k = [8u32, 16, 31, 32, 33, 48][(spec.exp_delta.unsigned_abs() / 2 % 6) as usize];
+                let v = (1i64 << k) + (spec.exp_delta / 16 % 24);
+                if spec.exp_delta < 0 { -v } else { v }
+            };
             s.push_str(&format!("{}{}", e, x));
         }
     }
